@@ -183,3 +183,20 @@ Proof.
   - rewrite (R_list _ _ _ HR) in HS. unfold akeys in HS. rewrite map_map in HS. exact HS.
   - intros k. rewrite (has_R _ _ _ k HR), ahas_in, (R_list _ _ _ HR). unfold akeys. rewrite map_map. tauto.
 Qed.
+
+(* nothing is lost early: an answer that was stored, not flushed, not evicted and has not yet
+   expired is in the dict, on a node carrying exactly that answer *)
+Lemma lru_live_present_l : forall m t0 its g w key v, mono its -> lru_reach m t0 its g w ->
+  fst g key = Some v -> snd w < a_exp v ->
+  exists i nd, dget (l_dict (fst w)) key = Some i /\ sget (l_store (fst w)) i = Some nd /\
+               n_key nd = Some key /\ n_val nd = Some v.
+Proof.
+  intros m t0 its g [c t] key v Hm Hr Hi Hx. cbn [fst snd] in *.
+  destruct (reach_inv _ _ _ _ _ Hm Hr) as [a [zs [HR [_ [HJ _]]]]]. cbn [fst snd] in *.
+  destruct (J_out _ _ _ HJ _ _ Hi) as [[e [He Hv]]|Hle]; [|lia].
+  rewrite (afind_R _ _ _ key HR) in He.
+  destruct (zfind key zs) as [z|] eqn:Ez; [|discriminate]. cbn in He. inversion He; subst e.
+  destruct (zfind_split _ _ _ Ez) as [z1 [z2 [E [Hk _]]]]. subst zs.
+  destruct (node_val _ z (node_ok_in _ _ _ _ _ HR)) as [nd [Hg [Hnk [Hnv _]]]].
+  exists (fst z), nd. rewrite (R_dict _ _ _ HR), Ez. cbn. rewrite Hk in Hnk. rewrite Hv in Hnv. auto.
+Qed.
